@@ -99,7 +99,7 @@ func itoa(n int) string {
 	return string(b)
 }
 
-var floats = []string{"0", "1", "-1", "0.5", "-0.5", "2.5", "1.25", "10", "1e10", "-1e10", "1e300", "-1e300", "0.1", "3.0"}
+var floats = []string{"0", "1", "-1", "0.5", "-0.5", "2.5", "1.25", "10", "1e10", "-1e10", "1e300", "-1e300", "0.1", "3.0", "1.7e308", "-1.7e308", "1e308"}
 
 func Float(t *rapid.T, label string) string { return rapid.SampledFrom(floats).Draw(t, label) }
 
